@@ -8,6 +8,11 @@ import time
 
 VERIF = os.path.dirname(os.path.dirname(os.path.abspath(__file__)))
 REPO = os.environ.get("VERIF_REPO", "/repo")
+# every harness process observes the library through the guarded hooks: the guard must be set before
+# tawazi is imported for the first time, and tawazi must come from the tree under test
+os.environ["TAWAZI_VERIF"] = "1"
+if REPO not in sys.path:
+    sys.path.insert(0, REPO)
 CACHE = os.path.join(VERIF, ".cache")
 EVID = os.environ.get("VERIF_EVIDENCE_DIR") or os.path.join(VERIF, "evidence")
 REPLAYS = os.path.join(os.environ["VERIF_EVIDENCE_DIR"], "replays") if os.environ.get("VERIF_EVIDENCE_DIR") else os.path.join(VERIF, "replays")
@@ -105,6 +110,17 @@ def write_evidence(prop, tier, seed, level, coverage, assumptions, wall, violati
     with open(os.path.join(EVID, f"{prop}.json"), "w") as f:
         json.dump(ev, f, indent=1)
     return ev
+
+
+def assert_hooks():
+    """The library under test is the one in REPO and its hooks are on (else every observation is empty)."""
+    import tawazi
+    from tawazi import _verif
+
+    if not os.path.realpath(tawazi.__file__).startswith(os.path.realpath(REPO)):
+        die_machinery(f"tawazi imported from {tawazi.__file__}, not from {REPO}")
+    if not _verif.ENABLED:
+        die_machinery("tawazi was imported with the TAWAZI_VERIF guard off")
 
 
 def say(*a):
